@@ -209,18 +209,30 @@ theorem mem_foldl_setMacro {xs ms : List MacroDef} {m : MacroDef} (h : m ∈ xs.
       · exact Or.inr (by simp [h])
     · exact Or.inr (by simp [h])
 
-theorem langOnly_babel (opts : List KeyVal) : langOnly (babelLanguageToken T opts) := by
+theorem injOk_babel (opts : List KeyVal) : injOk (babelLanguageToken T opts) := by
   unfold babelLanguageToken
   split
   · intro t ht
     simp only [List.mem_singleton] at ht
     subst ht
-    exact ⟨rfl, rfl⟩
+    exact Or.inl ⟨rfl, rfl⟩
   · intro t ht; cases ht
 
-theorem langOnly_nil : langOnly [] := by intro t ht; cases ht
+/-- an error mark consists of pinned text tokens -/
+theorem injOk_latexErrorToks (T' : Tables) (err : Str) (pos n : Nat) : injOk (latexErrorToks T' err pos n) := by
+  unfold latexErrorToks
+  intro t ht
+  dsimp only at ht
+  split at ht
+  · simp only [List.mem_cons, List.not_mem_nil, or_false] at ht
+    rcases ht with rfl | rfl <;> exact Or.inr ⟨rfl, rfl⟩
+  · simp only [List.mem_singleton] at ht
+    subst ht
+    exact Or.inr ⟨rfl, rfl⟩
 
-theorem langOnly_append {a b : List Tok} (ha : langOnly a) (hb : langOnly b) : langOnly (a ++ b) := by
+theorem injOk_nil : injOk [] := by intro t ht; cases ht
+
+theorem injOk_append {a b : List Tok} (ha : injOk a) (hb : injOk b) : injOk (a ++ b) := by
   intro t ht
   rcases List.mem_append.1 ht with h | h
   · exact ha t h
@@ -241,43 +253,52 @@ theorem modParams_core (fuel : Nat) (IHwork : SpecWork T nroot fuel) :
   · refine pbind _ pget ?_
     rintro _ _ ⟨rfl, rfl⟩
     dsimp only
-    have hinj : langOnly (if md.babelInject = true then babelLanguageToken T (st.globalOptions ++ options) else []) := by
+    have hinj0 : injOk (if md.babelInject = true then babelLanguageToken T (st.globalOptions ++ options) else []) := by
       split
-      · exact langOnly_babel T _
-      · exact langOnly_nil
-    generalize (if md.babelInject = true then babelLanguageToken T (st.globalOptions ++ options) else []) = inject
-      at hinj ⊢
+      · exact injOk_babel T _
+      · exact injOk_nil
+    generalize (if md.babelInject = true then babelLanguageToken T (st.globalOptions ++ options) else []) = inject0
+      at hinj0 ⊢
+    -- cleveref's warning: an error mark, only the diagnostics change
+    refine pbind (fun c s => Good T nroot st s ∧ injOk c) ?_ ?_
+    · split
+      · exact ⟨⟨G_diags T nroot st _ hg, rfl, rfl⟩, injOk_latexErrorToks _ _ _ _⟩
+      · exact ppure ⟨Good_refl hg, injOk_nil⟩
+    intro cinj s0 ⟨hgood0, hcinj⟩
+    have hg0 := hgood0.1
+    have hinj : injOk (inject0 ++ cinj) := injOk_append hinj0 hcinj
+    generalize inject0 ++ cinj = inject at hinj ⊢
     refine pbind _ pmodify ?_
     intro _ s1 hs1
-    have hgood1 : Good T nroot st s1 := by
+    have hgood1 : Good T nroot s0 s1 := by
       refine ⟨⟨⟨?_, ?_, ?_, ?_, ?_, ?_, ?_, ?_⟩, ?_, ?_⟩, ?_, ?_⟩ <;> rw [hs1]
-      · exact hg.flows
+      · exact hg0.flows
       · intro m hmem
         rcases List.mem_append.1 hmem with h | h
         · rcases mem_foldl_setMacro h with h | h
-          · exact hg.macros m (by simp [h])
+          · exact hg0.macros m (by simp [h])
           · exact hm m (by simp [h])
         · rcases mem_foldl_setMacro h with h | h
-          · exact hg.macros m (by simp [h])
+          · exact hg0.macros m (by simp [h])
           · exact hm m (by simp [h])
       · intro e hmem
         rcases mem_foldl_setMacro hmem with h | h
-        · exact hg.envs e h
+        · exact hg0.envs e h
         · exact he e h
-      · exact hg.gloss
-      · exact hg.items
-      · exact hg.langs
-      · exact hg.rots
-      · exact hg.unk
-      · exact hg.root
-      · exact hg.inFrame
+      · exact hg0.gloss
+      · exact hg0.items
+      · exact hg0.langs
+      · exact hg0.rots
+      · exact hg0.unk
+      · exact hg0.root
+      · exact hg0.inFrame
     clear hs1
     split
     · have hw1 := IHwork md.macrosLatex s1 hgood1.1.toG0 (fun h => absurd h hgood1.1.inFrame) hgood1.1.root
       refine pbind _ hw1 ?_
       intro _ s2 ⟨g0, hs, _⟩
-      exact ppure ⟨Good_trans hgood1 (G_of_G0_Same hgood1.1 g0 hs), hinj⟩
-    · exact ppure ⟨hgood1, hinj⟩
+      exact ppure ⟨Good_trans hgood0 (Good_trans hgood1 (G_of_G0_Same hgood1.1 g0 hs)), hinj⟩
+    · exact ppure ⟨Good_trans hgood0 hgood1, hinj⟩
 theorem Post_foldlM {α β} (f : β → α → M β) (I : β → PState → Prop) (l : List α) (b : β) (st : PState)
     (hI : I b st) (hf : ∀ b a s, a ∈ l → I b s → Post (f b a s) I) : Post (l.foldlM f b st) I := by
   induction l generalizing b st with
@@ -291,23 +312,23 @@ theorem Post_foldlM {α β} (f : β → α → M β) (I : β → PState → Prop
 theorem init_core (P : ModuleDef → Prop) (fuel : Nat)
     (hfound : ∀ requ, P ((findModule T false requ).getD (emptyModule requ)))
     (IHmod : ∀ (md : ModuleDef) (options : List KeyVal) (position : Nat) (st : PState), G T nroot st → P md →
-      Post (modifyParameters T fuel md options position st) (fun r st' => Good T nroot st st' ∧ langOnly r))
+      Post (modifyParameters T fuel md options position st) (fun r st' => Good T nroot st st' ∧ injOk r))
     (IHinit : ∀ (name : Str) (md : ModuleDef) (builtin : Bool) (options : List KeyVal) (position : Nat)
       (st : PState), G T nroot st → P md →
-      Post (initPackage T fuel name md builtin options position st) (fun r st' => Good T nroot st st' ∧ langOnly r))
+      Post (initPackage T fuel name md builtin options position st) (fun r st' => Good T nroot st st' ∧ injOk r))
     (name : Str) (md : ModuleDef) (builtin : Bool) (options : List KeyVal) (position : Nat) (st : PState)
     (hg : G T nroot st) (hmd : P md) :
     Post (initPackage T (fuel + 1) name md builtin options position st)
-      (fun r st' => Good T nroot st st' ∧ langOnly r) := by
+      (fun r st' => Good T nroot st st' ∧ injOk r) := by
   rw [initPackage.eq_2]
   refine pbind _ pget ?_
   rintro _ _ ⟨rfl, rfl⟩
   split
-  · exact ppure ⟨Good_refl hg, langOnly_nil⟩
+  · exact ppure ⟨Good_refl hg, injOk_nil⟩
   · apply Post_catchAll
-    refine pbind (fun acc s => Good T nroot st s ∧ langOnly acc) ?_ ?_
+    refine pbind (fun acc s => Good T nroot st s ∧ injOk acc) ?_ ?_
     · apply Post_foldlM
-      · exact ⟨Good_refl hg, langOnly_nil⟩
+      · exact ⟨Good_refl hg, injOk_nil⟩
       · intro acc requ s _ ⟨hgood, hacc⟩
         refine pbind _ pget ?_
         rintro _ _ ⟨rfl, rfl⟩
@@ -315,17 +336,17 @@ theorem init_core (P : ModuleDef → Prop) (fuel : Nat)
         split
         · refine pbind _ (IHinit requ _ false options position s hgood.1 (hfound requ)) ?_
           intro o s' ⟨g', ho⟩
-          exact ppure ⟨Good_trans hgood g', langOnly_append hacc ho⟩
+          exact ppure ⟨Good_trans hgood g', injOk_append hacc ho⟩
         · exact ppure ⟨hgood, hacc⟩
     · intro reqOut s ⟨hgood, hacc⟩
       dsimp only
       have hjp : ∀ s1, Good T nroot st s1 →
           Post ((do let o ← modifyParameters T fuel md options position; pure (reqOut ++ o)) s1)
-            (fun r st' => Good T nroot st st' ∧ langOnly r) := by
+            (fun r st' => Good T nroot st st' ∧ injOk r) := by
         intro s1 hgood1
         refine pbind _ (IHmod md options position s1 hgood1.1 hmd) ?_
         intro o s' ⟨g', ho⟩
-        exact ppure ⟨Good_trans hgood1 g', langOnly_append hacc ho⟩
+        exact ppure ⟨Good_trans hgood1 g', injOk_append hacc ho⟩
       split
       · refine pbind _ pmodify ?_
         intro _ s1 hs1
